@@ -1,6 +1,6 @@
 (* C19 runner.  Input, one case per line:
      <kernel> <stride> <rminx> <rminy> <rmaxx> <rmaxy> <pixhex|->
-   (bounds = Rect, as for every *image.NRGBA).  kernels: rootalpha lossyalpha alpha cleanup yplane argb
+   (bounds = Rect, as for every *image.NRGBA).  kernels: rootalpha lossyalpha alpha cleanup yplane argb argbgen (generic At loop of the lossless import)
    Output: "I <result>" where result is hex / 0|1 / PANIC.                      *)
 open Zutil
 open PlaceModel
@@ -23,6 +23,7 @@ let () = iter_lines (fun line ->
       | "cleanup" -> res (cat (cat (fun (((r, g), b), a) -> hex2 r ^ hex2 g ^ hex2 b ^ hex2 a))) (fast_cleanup_copy pl)
       | "yplane" -> res (cat (cat hex2)) (fast_import_rows rgb_to_y Z0 pl)
       | "argb" -> res (cat (cat (fun w -> Printf.sprintf "%08x" (int_of_z w)))) (fast_argb pl)
+      | "argbgen" -> res (fun p -> cat (cat (fun w -> Printf.sprintf "%08x" (int_of_z w))) (gen_argb p)) (picture pl)
       | _ -> "ERR bad-kernel" in
     print_endline ("I " ^ out)
   | [] -> ()
